@@ -87,7 +87,9 @@ class Builder:
         if c == "Cylinder":
             return m.magnet.Cylinder(polarization=exc, dimension=np.array(g, dtype=float) * u, **kw)
         if c == "CylinderSegment":
-            return m.magnet.CylinderSegment(polarization=exc, dimension=(g[0] * u, g[1] * u, g[2] * u, 15.0 * g[3], 15.0 * g[4]), **kw)
+            # the same section written one turn lower (angles below -180 deg) for static sources, as given for sources with a path
+            off = -360.0 if (len(src["path"]) == 1 and g[3] >= 0 and g[4] - g[3] < 24) else 0.0
+            return m.magnet.CylinderSegment(polarization=exc, dimension=(g[0] * u, g[1] * u, g[2] * u, 15.0 * g[3] + off, 15.0 * g[4] + off), **kw)
         if c == "Sphere":
             return m.magnet.Sphere(polarization=exc, diameter=g[0] * u, **kw)
         if c == "Tetrahedron":
